@@ -480,11 +480,20 @@ def run(ctx):
         g_z = f.gate_edges(lambda atom, pol, f=f, szv_=szv_: f.N(atom)['k'] == 'BinaryOperator' and f.N(atom).get('op') in ('==', '!=') and bool(szv_) and f.ref_of(f.N(atom)['ch'][0]) == szv_[0] and
                            f.const_value(f.N(atom)['ch'][1]) == 0 and ((f.N(atom)['op'] == '==' and pol is True) or (f.N(atom)['op'] == '!=' and pol is False)))
         if okc:
-            early = [r for r in f.returns() if not q.before(f, cs[0], r)]
-            clr_ = [i for i in f.calls() if q.short_of(f.bcallee(i) or '') == 'clear' and f.N(i)['k'] == 'CXXMemberCallExpr']
             neg_ = f.gate_edges(lambda atom, pol, f=f, szv_=szv_: f.N(atom)['k'] == 'BinaryOperator' and f.N(atom).get('op') == '<' and bool(szv_) and f.ref_of(f.N(atom)['ch'][0]) == szv_[0] and f.const_value(f.N(atom)['ch'][1]) == 0 and pol is True)
-            for k_, r in enumerate(early):
-                ctx.check(bool(g_z + neg_) and f.only_through(r, g_z + neg_), R7, '%s:early-exit#%d:only-for-size-0-or-invalid' % (nm_, k_), 'the conversion is skipped (empty result) for an input whose converted size is not 0', f.loc(r))
+            # every way around the conversion leads over "the converted size is 0" (or "the length is impossible")
+            from vlib import lin as _lin15
+            S15 = _lin15.Symb(f)
+
+            def not_positive(atom, pol, f=f, szv_=szv_, S15=S15):
+                n_ = f.N(atom)
+                if n_['k'] != 'BinaryOperator' or n_.get('op') not in ('<', '<=', '>', '>=', '==', '!=') or not szv_ or szv_[0] not in f.subtree_refs(atom):
+                    return False
+                cons = S15.rel(atom, pol)
+                return bool(cons) and _lin15.implies(cons, _lin15.ge(_lin15.Lin.atom(szv_[0]).scale(-1)))
+            g_np = f.gate_edges(not_positive)
+            reach = f.reachable_blocks(cut_blocks=[f.point_of(cs[0])[0]], cut_edges=g_z + neg_ + g_np)
+            ctx.check(bool(g_z + g_np) and f.exit not in reach, R7, '%s:conversion-skipped-only-for-size-0-or-invalid' % nm_, 'the conversion is skipped (empty result) for an input whose converted size is not 0', f.where)
         ctx.check(okc, R7, '%s:whole-input-into-the-start-of-the-buffer-and-back' % nm_, 'the string overload does not convert [c_str, c_str+size) into &buf[0] and hand back buf[0..size)', f.where)
     ctx.floor(R7, 3)
 
